@@ -45,7 +45,7 @@ class C06System(BuilderSystem):
         codes = [i["codes"] for i in st.last_infos]
         if name in ("tool_off", "power_off", "coolant_off", "emergency_halt"):
             if exc is not None:
-                problems.append((f"{name}-raised", f"{name} raised {exc!r} (tool_active={s.is_tool_active}, coolant_active={s.is_coolant_active}, bounds={self.bounds}); emitted {st.last_lines}"))
+                problems.append((f"{name}-raised", f"{name} raised {exc!r} (tool_active={s.is_tool_active}, coolant_active={s.is_coolant_active}, tool-power bounds={s.get_bounds('tool-power')}); emitted {st.last_lines}"))
             else:
                 if name in ("tool_off", "power_off"):
                     want = [["M5"]]
@@ -80,6 +80,25 @@ class C06System(BuilderSystem):
         return (tuple(tuple(i["codes"]) for i in st.last_infos), type(st.last_exc).__name__ if st.last_exc else None)
 
 
+class C06LiveBounds(C06System):
+    """Bounds are (re)configured while the program is being built: ranges that exclude the power the tool is running at, the
+    feed rate in effect or the temperature targets already set."""
+
+    RANGES = [("tool-power", 10, 100), ("tool-power", 2000, 3000), ("tool-power", 0, 5000),
+              ("feed-rate", 2000, 3000), ("bed-temperature", 80, 90), ("tool-number", 5, 9)]
+
+    def ops(self, st):
+        ops = [o for o in super().ops(st) if o[0] not in ("set_length_units", "set_chamber_temperature", "set_hotend_temperature", "pause", "stop", "halt")
+               and o[:2] not in (["emergency_halt", [""]], ["emergency_halt", ["   "]], ["emergency_halt", ["first line\nsecond line", True]])]
+        ops += [["tool_on", ["clockwise", 50]], ["power_on", ["constant", 2500]], ["set_tool_power", [50]]]
+        ops += [["set_bounds", list(r)] for r in self.RANGES]
+        return ops
+
+    def canon(self, st):
+        s = st.g.state
+        return super().canon(st) + tuple(repr(s.get_bounds(n)) for n in ("tool-power", "feed-rate", "bed-temperature", "tool-number"))
+
+
 def systems(tier):
     box = ("axes", (0, 0, 0), (10, 10, 10))
     cfgs = [
@@ -100,7 +119,9 @@ def systems(tier):
             ("all-bounds", [("tool-power", 10, 100), ("feed-rate", 100, 7000), box, ("tool-number", 1, 4),
                             ("bed-temperature", 40, 60), ("hotend-temperature", 40, 60), ("chamber-temperature", 40, 60)], (100, 10)),
         ]
-    return [(label, C06System(label, b, pv), 60, None) for label, b, pv in cfgs]
+    out = [(label, C06System(label, b, pv), 60, None) for label, b, pv in cfgs]
+    out.append(("bounds-set-at-run-time", C06LiveBounds("bounds-set-at-run-time", [], (1000, 2500)), 7 if tier == "thorough" else 4, None))
+    return out
 
 
 RULE = ("BFS to closure, per bounds configuration, over tool_on/power_on/coolant_on/set_tool_power/move(S)/tool_change/temperatures/"
@@ -108,7 +129,8 @@ RULE = ("BFS to closure, per bounds configuration, over tool_on/power_on/coolant
         "normally, emit exactly M05 / M09 / (M05, M09, comment with the message, M00|M30) and leave the activity flags false; "
         "distinct = distinct canonical GState modal fields + interpreter tool/coolant state")
 ASSUMPTIONS = ["values for the 'on' operations are chosen inside the configured ranges so that states with the tool running are reachable",
-               "bounds configurations: none, each property alone, tool-power ranges including ones that exclude zero, all together"]
+               "bounds configurations: none, each property alone, tool-power ranges including ones that exclude zero, all together, and "
+               "bounds (re)configured by set_bounds calls inside the history (ranges excluding the values currently in effect)"]
 
 
 def run(tier, seed):
